@@ -11,8 +11,8 @@ from ..gen import jumpmodels as jm
 from ..ref import jumpvm
 
 LEVEL = 'model_checking'
-RULE = ('hand-built models: every statement list up to the length bound over the 12-statement alphabet {log a, log b, '
-        'x = x + 1, jump A/B, jumpif(cc()) A/B, label A/B (duplicates allowed), return, return x, call ff}; every list in '
+RULE = ('hand-built models: every statement list up to the length bound over the 13-statement alphabet {log a, log b, '
+        'x = x + 1, jump A/B, jumpif(cc()) A/B, label A/B (duplicates allowed), return, return x, call ff, jumpif(ff()) A}; every list in '
         'which one position holds one of the 133 function variants (bodies of <= 2 statements with the same label names '
         'inside the function); parsed models of the depth <= 2 nesting chains. Each model is run by the real interpreter '
         'on every tape with at most 3 true conditions (statement horizon 60) and compared with the reference '
@@ -78,7 +78,7 @@ def fam_plain(arg):
         for code in jm.lists(length, first):
             acc.cases += 1
             check_plain({'code': code}, acc)
-            if any(c in (3, 4, 5, 6, 11) for c in code):
+            if any(c in (3, 4, 5, 6, 11, 12) for c in code):
                 acc.nontrivial += 1
         acc.sample({'code': jm.describe([first] + [(first * 5 + 3) % jm.NP] * (length - 1))})
     if length == 0:
@@ -97,7 +97,7 @@ def fam_fn(arg):
     for code in jm.lists_with_fn(length, pos, block):
         acc.cases += 1
         check_fn({'code': code}, acc)
-        if jm.CALL_FF in code:
+        if jm.CALL_FF in code or jm.JUMPIF_FF in code:
             acc.nontrivial += 1
     acc.sample({'code': jm.describe([['fn', block[0]]] + [jm.CALL_FF] * (length - 1))})
     return acc.result()
@@ -330,7 +330,7 @@ def families(tier):
         Family('function2', fam_f2, split(pairs, 24), f'two function statements of the same name with different bodies ({nb} bodies, ordered pairs) in every sequence of length 2..4 over {{F1, F2, call, log, return x}} containing both; each also followed by a second model (definitions swapped) on the same globals',
                expected=len(pairs) * f2_count()),
         Family('conditions', fam_cond, [[i] for i in range(npool)], f'a value of each kind ({npool} values of all nine types incl. empty object/array/string, zeros) as jump condition: plain, negated, under && and ||, and in a backward jump', expected=npool * len(COND_SHAPES)),
-        Family('plain', fam_plain, plain_shards, f'every statement list of length <= {maxlen} over the 12-statement alphabet; deviation bound {BOUND}; horizon {HORIZON}',
+        Family('plain', fam_plain, plain_shards, f'every statement list of length <= {maxlen} over the 13-statement alphabet; deviation bound {BOUND}; horizon {HORIZON}',
                expected=sum(jm.NP ** k for k in range(maxlen + 1))),
         Family('function', fam_fn, fn_shards, f'every list of length <= {fnlen} with one function variant (133 bodies) at any position, other positions over the alphabet',
                expected=sum(k * nfn * jm.NP ** (k - 1) for k in range(1, fnlen + 1))),
